@@ -262,6 +262,22 @@ Definition analyze (root : rset) (args : list nat) (out : nat) (sig_cleanup sig_
     end
   end.
 
+(* parse.go:Load (wire check / wire show): the second driver loop runs processNewSet, solve and -- since the
+   repair of the check/gen disagreement -- injectorCallErrors for every injector, like gen.inject *)
+Definition load_analyze (root : rset) (args : list nat) (out : nat) (sig_cleanup sig_err : bool) : result :=
+  match process_set args root with
+  | inr es => RErr StSet (map diag_of_serr es)
+  | inl pm =>
+    match solve pm root args out with
+    | inr ds => RErr StSolve ds
+    | inl cs =>
+      match inject_checks sig_cleanup sig_err cs with
+      | [] => ROk pm cs
+      | ds => RErr StInject ds
+      end
+    end
+  end.
+
 End WithOrder.
 
 (* ---------------- boolean comparison with observations (correspondence harness) ---------------- *)
